@@ -1681,11 +1681,24 @@ impl ExternalSortExec {
                 let col_b = evaluate_expr(batch_b, &sort_expr.expr).ok();
 
                 if let (Some(a), Some(b)) = (col_a, col_b) {
-                    let cmp = compare_array_values(&a, row_a, &b, row_b);
-                    let cmp = if sort_expr.direction == crate::planner::SortDirection::Desc {
-                        cmp.reverse()
-                    } else {
-                        cmp
+                    // NULL placement is independent of the direction and must be the
+                    // one the runs were sorted with (sort_batch: SortOptions.nulls_first).
+                    let nulls_first =
+                        matches!(sort_expr.nulls, crate::planner::NullOrdering::NullsFirst);
+                    let cmp = match (a.is_null(row_a), b.is_null(row_b)) {
+                        (true, true) => Ordering::Equal,
+                        (true, false) if nulls_first => Ordering::Less,
+                        (true, false) => Ordering::Greater,
+                        (false, true) if nulls_first => Ordering::Greater,
+                        (false, true) => Ordering::Less,
+                        (false, false) => {
+                            let cmp = compare_array_values(&a, row_a, &b, row_b);
+                            if sort_expr.direction == crate::planner::SortDirection::Desc {
+                                cmp.reverse()
+                            } else {
+                                cmp
+                            }
+                        }
                     };
                     if cmp != Ordering::Equal {
                         return cmp;
